@@ -90,6 +90,11 @@ def c14_start(c1: int, c2: int, c3: int, c4: int, fc: int) -> bool:
             h = Hook(name, c // 2, fc if name in ('before_spawn', 'after_spawn') else 0)
             hooks[name] = h
             hk[name] = (h, bool(c % 2))
+        if S.get('bsig') is not None:
+            # a before_signal hook with a fixed outcome on top: the stop signal of a vetoed worker may be withheld, the SIGKILL never
+            h = Hook('before_signal', S['bsig'])
+            hooks['before_signal'] = h
+            hk['before_signal'] = (h, False)
         n0 = S.get('n0', 2)
         # another watcher, created first, whose hooks all carry the ignore-failure flag: flags are per watcher
         other = dict((name, (Hook(name, TRUE), True)) for name in START_HOOKS + STOP_HOOKS)
@@ -100,6 +105,9 @@ def c14_start(c1: int, c2: int, c3: int, c4: int, fc: int) -> bool:
         try:
             r = w.call('start', name='a', waiting=True, match='simple', max_time=20.0)
             w.run_for(1.0)
+            if S.get('bsig') is not None:
+                w.check_now()             # a rejected worker that only died of the final terminate() is collected by the periodic check
+                w.run_for(0.1)
             if w.clock.tripped:
                 return rt.skip()
             # expected outcome from the documented gating rules
@@ -286,13 +294,14 @@ KNOWN = []
 def plan(tier):
     q = tier == 'quick'
     start_sh = [{'maxhooks': 2 if q else 4, 'n0': 2, 'beh': 0}, {'maxhooks': 1 if q else 2, 'n0': 2, 'beh': 2},
-                {'maxhooks': 1, 'n0': 3, 'beh': 0}]
+                {'maxhooks': 1, 'n0': 3, 'beh': 0}, {'maxhooks': 1 if q else 2, 'n0': 2, 'beh': 0, 'bsig': FALSE},
+                {'maxhooks': 1, 'n0': 2, 'beh': 0, 'bsig': RAISE}]
     mh = 2 if q else 4
     stop_sh = [{'ri': i, 'beh': 0, 'maxhooks': mh} for i in range(len(REQS))] + [{'ri': i, 'beh': 2, 'maxhooks': mh} for i in (0, 1, 5)]
     return [
         Cond('c14_start', shards=start_sh, budget=240 if q else 2400, twins=2,
              bounds={'c1..c4': 'S: {true,false,raise} x {ignore flag} per start-phase hook (quick: at most 2 non-default hooks at a time; '
-                     'thorough: all 1296 assignments)', 'fc': 'S{from the first call, from the second call}', 'workers': 'S{obedient, stubborn}'}),
+                     'thorough: all 1296 assignments)', 'fc': 'S{from the first call, from the second call}', 'workers': 'S{obedient, stubborn}', 'bsig': 'S: additionally a before_signal hook that returns false / raises'}),
         Cond('c14_stop', shards=stop_sh, budget=240 if q else 1200, twins=2,
              bounds={'c1..c4': 'S: assignments to before_stop, after_stop, before_signal, after_signal (quick: at most two non-default at a time; thorough: all 1296)', 'request': 'S%r' % (REQS,)}),
     ]
